@@ -335,6 +335,10 @@ class C07(Spec):
                 else:
                     keys.append(ord(rng.choice("hhl")))
             pcases.append(uipub_case(rng, keys, preload=rng.choice((0, 1, 2)), feeds=feeds))
+        # what main.go does first: State.Subcommand(name, argument) on the fresh State
+        for name in ("open", "feed", "Feed", "opn", "", "feed "):
+            for arg in ("main", "nosuch", "", "gopher://dead.invalid/y"):
+                pcases.append(Case("uisub", text_tokens(name) + text_tokens(arg) + [2] + text_tokens("main") + text_tokens("other"), {"keys": [], "sub": [name, arg]}))
         pb = Batch("c07-pub", pcases, config=cfg, env=env, timeout=1200,
                    correspondence="ui.State.Update over real pub.Post/Actor/Activity items == Ui.update (creators, recipients, actor, media hooks)")
         pb.parallel = False
@@ -357,6 +361,8 @@ class C07(Spec):
                     yield ui_case(([tuple(x) for x in m["items"]], m["root"]), cand, preload=m["preload"], width=m["width"], height=m["height"], feeds=m["feeds"])
 
     def nontrivial(self, case, res):
+        if case.op == "uisub":
+            return True
         if case.op == "uipub":
             return any(k in case.meta["keys"] for k in (99, 114, 97)) and len(case.meta["items"]) >= 3
         ks = [k for k in case.meta["keys"] if isinstance(k, int)]
